@@ -14,9 +14,11 @@ rsync -a --exclude target /verif/sim/ $mx/sim/
 sed -i "s|path = \"/repo/core\"|path = \"$mx/repo/core\"|; s|path = \"/repo\"|path = \"$mx/repo\"|" $mx/sim/Cargo.toml
 cp /verif/known_findings.json $mx/
 export EGSIM_VERIF_DIR=$mx
+# ids already in MATRIX.json are kept as they are unless FORCE=1 (the file is merged at the end)
 out=/verif/seeded/MATRIX.json.tmp; echo "{" > $out; first=1
 for d in /verif/seeded/*/; do
   id=$(basename "$d"); [ -f "$d/patch.diff" ] || continue
+  if [ "${FORCE:-0}" != "1" ] && [ -f /verif/seeded/MATRIX.json ] && python3 -c "import json,sys; sys.exit(0 if '$id' in json.load(open('/verif/seeded/MATRIX.json')) else 1)"; then continue; fi
   git -C $mx/repo apply "$d/patch.diff" || { echo "cannot apply $id"; continue; }
   if ! (cd $mx/sim && cargo build --release --offline >/dev/null 2>&1); then echo "$id: build failed"; git -C $mx/repo checkout -q -- .; continue; fi
   row=""
@@ -31,5 +33,13 @@ for d in /verif/seeded/*/; do
   echo " \"$id\": {${row%,} }" >> $out
   echo "$id: $row"
 done
-echo "}" >> $out; mv $out /verif/seeded/MATRIX.json
+echo "}" >> $out
+python3 - <<'PY'
+import json, os
+new = json.load(open('/verif/seeded/MATRIX.json.tmp'))
+old = json.load(open('/verif/seeded/MATRIX.json')) if os.path.exists('/verif/seeded/MATRIX.json') else {}
+old.update(new)
+json.dump(dict(sorted(old.items())), open('/verif/seeded/MATRIX.json', 'w'), indent=1)
+os.remove('/verif/seeded/MATRIX.json.tmp')
+PY
 echo MATRIX-COMPLETE
